@@ -127,7 +127,7 @@ func Explore(l *Loaded, c *Check, o Options) (*HarnessResult, error) {
 					s = s2
 				}
 			}
-			res := l.Prog.RunPath(c.Fn, prefix, ctx, s, interp.RunOpts{Redirect: redir, MaxDecisions: c.MaxDec, MaxConcretize: c.MaxConc})
+			res := l.Prog.RunPath(c.Fn, prefix, ctx, s, interp.RunOpts{Redirect: redir, MaxDecisions: c.MaxDec, MaxConcretize: c.MaxConc, BlockIsViolation: c.OnBlock == "violation"})
 
 			mu.Lock()
 			active--
@@ -251,6 +251,6 @@ func Replay(l *Loaded, c *Check, model map[string]uint64, trail []interp.Decisio
 	if model == nil {
 		model = map[string]uint64{}
 	}
-	res := l.Prog.RunPath(c.Fn, trail, ctx, nil, interp.RunOpts{Redirect: redir, Concrete: model, MaxDecisions: c.MaxDec, MaxConcretize: c.MaxConc})
+	res := l.Prog.RunPath(c.Fn, trail, ctx, nil, interp.RunOpts{Redirect: redir, Concrete: model, MaxDecisions: c.MaxDec, MaxConcretize: c.MaxConc, BlockIsViolation: c.OnBlock == "violation"})
 	return res, nil
 }
